@@ -157,6 +157,24 @@ def replay(path):
             return 1 if hit else 0
         finally:
             shutil.rmtree(wd, ignore_errors=True)
+    if obj["case"].get("driver") == "comp_driver":
+        cj = obj["case"]
+        case = CompCase(cj["mode"], cj["flavor"], cj["seed"], cj["args"], cj.get("tag", ""))
+        case.cold = bool(cj.get("cold"))
+        build(case.flavor)
+        wd = workdir_for("replay")
+        try:
+            run = CompRun(prop, "quick", 1, wd, Known(os.devnull))
+            run.record_pool(run.run_pool_case(case))
+            hit = False
+            for skey, e in run.findings.items():
+                print("observed: %s :: %s" % (skey, e["detail"][:300]))
+                if e["sig"]["fclass"] == obj["signature"]["fclass"]:
+                    hit = True
+            print("REPRODUCED" if hit else "not reproduced")
+            return 1 if hit else 0
+        finally:
+            shutil.rmtree(wd, ignore_errors=True)
     case = Case.from_json(obj["case"])
     build(case.flavor)
     wd = workdir_for("replay")
@@ -283,7 +301,7 @@ def c15(prop, tier, seed, wd, explore, limit, kinds, we):
 
 @register("C14")
 def c14(prop, tier, seed, wd, explore, limit, kinds, we):
-    cases = P.basic_cases(prop, seed, tier, ops=("history", "meta"), per_input_states=1, max_n=2000, n_random=30 if tier == "quick" else 300)
+    cases = P.basic_cases(prop, seed, tier, ops=("history", "meta"), per_input_states=2, max_n=2000, n_random=30 if tier == "quick" else 300)
     def nt(case, cnt):
         return len(case.S) >= 2 and cnt.get("eval.history_call", 0) >= 50
     return dict_check(prop, tier, seed, wd, explore, limit, kinds, we, cases, RULE_BASE + "; a seeded history of >=50 calls ran with repeats, failed lookups and interleaved iterators", nontrivial=nt,
@@ -355,7 +373,7 @@ def fill_compare(run, prop, answers=False):
 @register("C07")
 def c07(prop, tier, seed, wd, explore, limit, kinds, we):
     # full object life cycle through every API + forced buffer growth
-    cases = P.basic_cases(prop, seed, tier, ops=(), states=("fresh", "own", "gen", "resaved", "concat"), per_input_states=2)
+    cases = P.basic_cases(prop, seed, tier, ops=(), states=("fresh", "own", "gen", "resaved", "concat", "survivor", "cold", "coldgen"), per_input_states=3)
     for c in list(cases):
         pass
     grow = []
@@ -419,10 +437,12 @@ def c06(prop, tier, seed, wd, explore, limit, kinds, we):
                 p = (p[0], p[1], 4)
             cseed = gen.splitmix(seed, ii, 11)
             states = [("fresh", 1), ("own", 1), ("concat", 1)]
+            states.append(("cold", 1))
             if kind != "BLOCKS":
                 states.append(("gen", 1))
+                states.append(("coldgen", 1))
             if kind in ("HASHHF", "HASHRPF"):
-                states += [("own", 2), ("gen", 3), ("own", 3)]
+                states += [("own", 2), ("gen", 3), ("own", 3), ("cold", 3), ("coldgen", 2)]
             for st, opt in states:
                 cases.append(Case(kind, p, iname, S, st, opt, (), big=(tier == "thorough"), seed=cseed, group=(kind, p, iname)))
     def cmpfn(a, b, sec):
@@ -432,9 +452,9 @@ def c06(prop, tier, seed, wd, explore, limit, kinds, we):
     def nt(case, cnt):
         return case.state != "fresh" and len(case.S) >= 2
     return dict_check(prop, tier, seed, wd, explore, limit, kinds, we, cases,
-                      RULE_BASE + "; each (kind, params, input) is run fresh, through its own loader, through the generic loader, from a concatenation of two images, and with load options 1..3 for HASHHF/HASHRPF; "
+                      RULE_BASE + "; each (kind, params, input) is run fresh, through its own loader, through the generic loader, from a concatenation of two images, with load options 1..3 for HASHHF/HASHRPF, and 'cold': the image is written to a file by one process and loaded (own / generic loader) by another process that builds nothing; "
                       "all transcripts (every locate/extract/absent/bad-id/rank/prefix/substring/table answer) must be equal and agree with the model; non-trivial = loaded state with >= 2 strings",
-                      nontrivial=nt, post=post, required=("concat_images",))
+                      nontrivial=nt, post=post, required=("concat_images", "cold_load"))
 
 @register("C12")
 def c12(prop, tier, seed, wd, explore, limit, kinds, we):
@@ -615,16 +635,28 @@ def c11(prop, tier, seed, wd, explore, limit, kinds, we):
 # ---------------------------------------------------------------------------------------------------- components (comp_driver)
 class CompCase(PoolCase):
     def __init__(self, mode, flavor, seed, args, tag=""):
-        PoolCase.__init__(self, mode, flavor, seed, args)
+        PoolCase.__init__(self, mode, flavor, seed, args, tag=tag)
         self.kind = "COMP:" + mode + ((":" + tag) if tag else "")
     def describe(self):
-        return {"driver": "comp_driver", "mode": self.mode, "flavor": self.flavor, "seed": self.seed, "args": self.args}
+        return {"driver": "comp_driver", "mode": self.mode, "flavor": self.flavor, "seed": self.seed, "args": self.args, "tag": self.tag, "cold": bool(getattr(self, "cold", False))}
 
 class CompRun(PoolRun):
     def run_pool_case(self, case):
         cid = self.runner.next_id()
         outp = os.path.join(self.workdir, "k%d.out" % cid)
-        res = self.runner.run([binpath(case.flavor, "comp_driver"), "--mode", case.mode, "--seed", str(case.seed)] + case.args, cpu_s=3000, wall_s=3600, out_path=None)
+        base = [binpath(case.flavor, "comp_driver"), "--mode", case.mode, "--seed", str(case.seed)] + case.args
+        if getattr(case, "cold", False):
+            # two processes: the first builds and writes every image to files, the second builds nothing and only loads them
+            d = os.path.join(self.workdir, "cold%d" % cid)
+            os.makedirs(d, exist_ok=True)
+            try:
+                res = self.runner.run(base + ["--save-dir", d], cpu_s=3000, wall_s=3600, out_path=None)
+                if res["status"] == "ok":
+                    res = self.runner.run(base + ["--load-dir", d], cpu_s=3000, wall_s=3600, out_path=None)
+            finally:
+                shutil.rmtree(d, ignore_errors=True)
+            return case, res
+        res = self.runner.run(base, cpu_s=3000, wall_s=3600, out_path=None)
         return case, res
 
     def record_pool(self, tup):
@@ -786,10 +818,19 @@ def c19(prop, tier, seed, wd, explore, limit, kinds, we):
     for v in ("rg", "rrr", "sdarray", "darray"):
         cases += spread("bitseq", "asan", seed * 7 + len(v), 8, 400 if tier == "quick" else 3000, ["--variants", v] + big, tag=v)
     cases += spread("wt", "asan", seed, 16, 40 if tier == "quick" else 400, big)
-    rule = ("bit vectors of 10 shapes (all-0, all-1, single 1/0, alternating, runs around multiples of 15, sparse, dense, half, block-uniform) and lengths around multiples of 15/32/64 and random: access/rank0/rank1 at every position and "
+    # persistence across processes: one process builds and saves, another one only loads and answers
+    cold = []
+    for v in ("rg", "rrr", "sdarray", "darray"):
+        cold += spread("bitseq", "asan", seed * 13 + len(v), 2, 60 if tier == "quick" else 600, ["--variants", v] + big, tag=v + ":cold")
+    cold += spread("wt", "asan", seed * 13, 2, 10 if tier == "quick" else 100, big, tag="cold")
+    for c in cold:
+        c.cold = True
+    cases += cold
+    rule = ("bit vectors of 11 shapes (all-0, all-1, single 1/0, alternating, runs around multiples of 15, sparse, dense, half, block-uniform, long mixed-density vectors with dense and > 2^16-bit sparse blocks of 1024 ones) and lengths around multiples of 15/32/64 and random: access/rank0/rank1 at every position and "
             "select0/select1 for every j against prefix counts, for BitSequenceRG (factors 1..40), BitSequenceRRR (rates 1..128 incl. odd ones), SDArray and DArray, built and reloaded through BitSequence::load; WaveletTree (Huffman shape, "
-            "identity mapper, RG/RRR bitmaps) and WaveletTreeNoptrs: access/rank/select against position lists, built and reloaded; a case is one comp_driver process")
-    return comp_check(prop, tier, seed, wd, explore, we, cases, rule, required=("bitvec_all0", "bitvec_all1", "bitvec_block_uniform", "bitvec_len_mod32_0", "bitvec_len_mod15_0", "sigma_1", "sigma_256"))
+            "identity mapper, RG/RRR bitmaps) and WaveletTreeNoptrs: access/rank/select against position lists, built and reloaded; a case is one comp_driver process; 'cold' cases are pairs of processes: the first builds and "
+            "writes the images to files, the second builds nothing and checks what it loads from them")
+    return comp_check(prop, tier, seed, wd, explore, we, cases, rule, required=("bitvec_all0", "bitvec_all1", "bitvec_block_uniform", "bitvec_mixed_density", "bitvec_len_mod32_0", "bitvec_len_mod15_0", "sigma_1", "sigma_256", "cold_load"))
 
 @register("C20")
 def c20(prop, tier, seed, wd, explore, limit, kinds, we):
